@@ -12,7 +12,7 @@ from .dataflow import Program
 from .loader import AnalysisError, Repo
 from .report import Ctx, finish
 
-CLAIMED = [f"C{i:02d}" for i in range(1, 19) if i != 2]
+CLAIMED = [f"C{i:02d}" for i in range(1, 19) if i != 2]  # C02 is not applicable (DESIGN.md)
 
 
 def run_property(prop: str, tier: str, replay: dict | None = None) -> int:
